@@ -53,6 +53,7 @@ gen_rounds = Contract(
     "_generate_rounds", f"{H}::HasRounds._generate_rounds",
     params={"cls": CLS()},
     globals={"rng": RNG},
+    modifies=[],  # drawing a cost never writes to the hasher class (no memoised range that could go stale)
     requires=[inv("cls"), "implies(cls.vary_rounds is not None and cls.vary_rounds != 0, cls.default_rounds is None or cls.default_rounds != 0)"],
     raises_iff={"TypeError": "cls.default_rounds is None"},
     ensures=[
@@ -146,7 +147,11 @@ def _vau_setup(it, args):
     self = args["self"]
     self.fields["_get_or_identify_record"] = counting("_get_or_identify_record", lambda it2, a, k: rec)
     self.fields["_strip_unused_context_kwds"] = None
-    self.fields["hash"] = counting("self.hash", lambda it2, a, k: SStr(z3.String("self.hash(secret, category)"), "str"))
+    def _hash(it2, a, k):
+        it2.run.ghost["hash_category"] = k.get("category", "<not passed>")
+        return SStr(z3.String("self.hash(secret, category)"), "str")
+
+    self.fields["hash"] = counting("self.hash", _hash)
     self.fields["dummy_verify"] = counting("dummy_verify", lambda it2, a, k: None)
     it.run.ghost["rec"] = rec
     return {"record": rec}
@@ -170,6 +175,14 @@ vau = Contract(
 )
 
 CONTRACTS.append(vau)
+CONTRACTS.append(Contract(
+    "CryptContext.verify_and_update[category]", f"{CTX}::CryptContext.verify_and_update",
+    params={"self": Obj(), "secret": Str(), "hash": Str(), "scheme": Const(None), "category": Str(), "kwds": Const(SDict())},
+    setup=_vau_setup,
+    ensures=[("the replacement hash is made under the caller's category (its default scheme and cost)",
+              lambda it, env: z3.Implies(z3.BoolVal(any(c[0] == "self.hash" for c in it.run.calls)), it.to_zbool(it.truth(it.cmp_vals("==", it.run.ghost.get("hash_category"), env.lookup("category"))))))],
+    descr="any category name, any record behaviour",
+))
 
 
 def _records(n):
